@@ -39,3 +39,7 @@ def run(tier, seed):
                         "equal-deadline heap timers of one priority may run in either order (property text)"],
     }
     return ec.standard_run("C01", tier, seed, plan)
+
+
+def replay(case, seed):
+    return ec.replay_case("C01", case, seed)
